@@ -34,10 +34,10 @@ class TaskModel:
         self.log = []
 
     def call(self, node, it):
-        f = node.func
-        if not (isinstance(f, ast.Attribute) and dotted(f.value) == "self.task"):
+        callee = it.callee_text(node.func)
+        if not callee.startswith("self.task."):
             return NotImplemented
-        nm = f.attr
+        nm = callee[len("self.task."):]
         args = [it.ev(a) for a in node.args]
         if nm == "getnumcon":
             return self.rows
